@@ -8,7 +8,7 @@ from concurrent.futures import ThreadPoolExecutor
 
 from . import core, htmlnorm, proj
 
-KINDS = ['para', 'atx', 'setext', 'hr', 'fence', 'code', 'def', 'quote', 'list']
+KINDS = ['para', 'atx', 'setext', 'hr', 'fence', 'code', 'def', 'quote', 'list', 'table', 'html']
 
 
 def exhaustive(ck, cfg, timeout=3000):
@@ -45,9 +45,9 @@ SZ = '\u1e9e'
 def concretise(docs):
     """Put the characters in that the specification writes as ASCII placeholders."""
     for d in docs:
-        if '{SZ}' in d['src']:
-            d['src'] = d['src'].replace('{SZ}', SZ)
-            d['html'] = d['html'].replace('{SZ}', SZ)
+        if '{SZ}' in d['src'] or '{TAB}' in d['src']:
+            d['src'] = d['src'].replace('{SZ}', SZ).replace('{TAB}', '\t')
+            d['html'] = d['html'].replace('{SZ}', SZ).replace('{TAB}', '\t')
     return docs
 
 
